@@ -20,159 +20,7 @@ class AnalysisError(Exception):
     """The checker cannot do its job (anchor vanished, unknown shape, floor)."""
 
 
-def _header_exprs(st):
-    """the expressions of a statement that are evaluated exactly once when control reaches it"""
-    if isinstance(st, (ast.Return, ast.Expr)):
-        return [st.value] if st.value is not None else []
-    if isinstance(st, ast.Assign):
-        return [st.value] + list(st.targets)
-    if isinstance(st, (ast.AugAssign, ast.AnnAssign)):
-        return [x for x in (st.value, st.target) if x is not None]
-    if isinstance(st, ast.If):
-        return [st.test]
-    if isinstance(st, ast.For):
-        return [st.iter]
-    if isinstance(st, ast.With):
-        return [it.context_expr for it in st.items]
-    if isinstance(st, ast.Raise):
-        return [x for x in (st.exc, st.cause) if x is not None]
-    if isinstance(st, ast.Assert):
-        return [x for x in (st.test, st.msg) if x is not None]
-    return []
-
-
-def _once_positions(expr, name):
-    """Load occurrences of `name` in expr that are evaluated exactly once (not under a lambda / comprehension
-    element / conditional arm)"""
-    out = []
-
-    def rec(n, once):
-        if isinstance(n, ast.Name) and n.id == name and isinstance(n.ctx, ast.Load):
-            out.append((n, once))
-            return
-        if isinstance(n, ast.Lambda):
-            rec(n.body, False)
-            return
-        if isinstance(n, (ast.ListComp, ast.SetComp, ast.GeneratorExp, ast.DictComp)):
-            for i, g in enumerate(n.generators):
-                rec(g.iter, once and i == 0)
-                for c in g.ifs:
-                    rec(c, False)
-            for f in ("elt", "key", "value"):
-                if hasattr(n, f):
-                    rec(getattr(n, f), False)
-            return
-        if isinstance(n, ast.IfExp):
-            rec(n.test, once)
-            rec(n.body, False)
-            rec(n.orelse, False)
-            return
-        if isinstance(n, ast.BoolOp):
-            for i, v in enumerate(n.values):
-                rec(v, once and i == 0)
-            return
-        for c in ast.iter_child_nodes(n):
-            rec(c, once)
-
-    rec(expr, True)
-    return out
-
-
-def normalise(tree):
-    """Normal form the analyses run on (layout, comments and quoting are already gone after parsing):
-    a local that is assigned once, by a plain `t = E`, and read once, unconditionally, by the statement that
-    immediately follows, is replaced by E (`t = f(x); return t` == `return f(x)`).  Introducing or removing such a
-    temporary does not change behaviour, so it must not change a verdict.  Returns the number of temporaries removed."""
-    removed = 0
-    # N3: two-armed conditionals are written with a positive test: `if not a: X else: Y` == `if a: Y else: X`
-    _NEG = {ast.NotEq: ast.Eq, ast.IsNot: ast.Is, ast.NotIn: ast.In}
-
-    def positive(t):
-        if isinstance(t, ast.UnaryOp) and isinstance(t.op, ast.Not):
-            return t.operand
-        if isinstance(t, ast.Compare) and len(t.ops) == 1 and type(t.ops[0]) in _NEG:
-            return ast.copy_location(ast.Compare(left=t.left, ops=[_NEG[type(t.ops[0])]()], comparators=t.comparators), t)
-        return None
-
-    for n in ast.walk(tree):
-        if isinstance(n, ast.If) and n.orelse:
-            p = positive(n.test)
-            if p is not None:
-                n.test, n.body, n.orelse = p, n.orelse, n.body
-                removed += 1
-        elif isinstance(n, ast.IfExp):
-            p = positive(n.test)
-            if p is not None:
-                n.test, n.body, n.orelse = p, n.orelse, n.body
-                removed += 1
-    for fn in [n for n in ast.walk(tree) if isinstance(n, (ast.FunctionDef, ast.AsyncFunctionDef))]:
-        a = fn.args
-        params = {x.arg for x in a.posonlyargs + a.args + a.kwonlyargs} | ({a.vararg.arg} if a.vararg else set()) | ({a.kwarg.arg} if a.kwarg else set())
-        for _ in range(6):
-            stores: dict[str, int] = {}
-            loads: dict[str, int] = {}
-            for n in ast.walk(fn):
-                if isinstance(n, ast.Name):
-                    d = stores if isinstance(n.ctx, (ast.Store, ast.Del)) else loads
-                    d[n.id] = d.get(n.id, 0) + 1
-                elif isinstance(n, ast.ExceptHandler) and n.name:
-                    stores[n.name] = stores.get(n.name, 0) + 2
-                elif isinstance(n, (ast.Global, ast.Nonlocal)):
-                    for nm in n.names:
-                        stores[nm] = stores.get(nm, 0) + 2
-            changed = False
-            for blk_owner in ast.walk(fn):
-                for field in ("body", "orelse", "finalbody"):
-                    blk = getattr(blk_owner, field, None)
-                    if not (isinstance(blk, list) and blk and isinstance(blk[0], ast.stmt)):
-                        continue
-                    i = 0
-                    while i + 1 < len(blk):
-                        st, nxt = blk[i], blk[i + 1]
-                        # `t = E; return t`: the value is only ever seen by that return, whatever else `t` is used for
-                        if (
-                            isinstance(st, ast.Assign)
-                            and len(st.targets) == 1
-                            and isinstance(st.targets[0], ast.Name)
-                            and isinstance(nxt, ast.Return)
-                            and isinstance(nxt.value, ast.Name)
-                            and nxt.value.id == st.targets[0].id
-                            and not isinstance(st.value, (ast.Yield, ast.YieldFrom, ast.Await))
-                        ):
-                            nxt.value = st.value
-                            del blk[i]
-                            removed += 1
-                            changed = True
-                            continue
-                        if (
-                            isinstance(st, ast.Assign)
-                            and len(st.targets) == 1
-                            and isinstance(st.targets[0], ast.Name)
-                            and st.targets[0].id not in params
-                            and stores.get(st.targets[0].id) == 1
-                            and loads.get(st.targets[0].id) == 1
-                            and not isinstance(st.value, (ast.Lambda, ast.Yield, ast.YieldFrom, ast.Await, ast.NamedExpr))
-                        ):
-                            nm = st.targets[0].id
-                            pos = [p for h in _header_exprs(nxt) for p in _once_positions(h, nm)]
-                            if len(pos) == 1 and pos[0][1]:
-                                use = pos[0][0]
-                                # replace the Name node by the value expression in its parent
-                                for par in ast.walk(nxt):
-                                    for f, v in ast.iter_fields(par):
-                                        if v is use:
-                                            setattr(par, f, st.value)
-                                        elif isinstance(v, list) and any(x is use for x in v):
-                                            setattr(par, f, [st.value if x is use else x for x in v])
-                                del blk[i]
-                                removed += 1
-                                changed = True
-                                stores[nm] = 0
-                                continue
-                        i += 1
-            if not changed:
-                break
-    return removed
+from .normal import normalise as _normalise_tree  # noqa: E402
 
 
 def _locals_of(fn) -> set[str]:
@@ -187,10 +35,11 @@ def _locals_of(fn) -> set[str]:
     return out
 
 
-def alpha_unify(ref_fn, fn):
+def alpha_unify(ref_fn, fn, lr=None, lf=None):
     """mapping {name in fn: name in ref_fn} if fn equals ref_fn up to a consistent (bijective) renaming of local
     variables, else None"""
-    lr, lf = _locals_of(ref_fn), _locals_of(fn)
+    if lr is None:
+        lr, lf = _locals_of(ref_fn), _locals_of(fn)
     fwd: dict[str, str] = {}
     bwd: dict[str, str] = {}
 
@@ -269,29 +118,190 @@ def _functions_by_qualname(tree):
     return out
 
 
+_ref_cache: dict = {}
+
+
+def _reference_tree(rel: str):
+    if rel in _ref_cache:
+        return _ref_cache[rel]
+    ref = REFERENCE_DIR / rel
+    rtree = None
+    if ref.exists():
+        try:
+            rtree = ast.parse(ref.read_text())
+            _normalise_tree(rtree)
+        except SyntaxError:
+            rtree = None
+    _ref_cache[rel] = rtree
+    return rtree
+
+
+def new_private_helpers(tree, rel: str) -> frozenset:
+    """qualified names of private functions / methods of this module that the reference snapshot does not have"""
+    rtree = _reference_tree(rel)
+    if rtree is None:
+        return frozenset()
+    have = set(_functions_by_qualname(rtree))
+    return frozenset(q for q in _functions_by_qualname(tree) if q not in have and q.split(".")[-1].startswith("_") and not q.split(".")[-1].startswith("__"))
+
+
+def _unify_blocks(ref_fn, fn) -> int:
+    """branch-wise alpha-unification for the big isinstance-dispatch functions: the bodies of `if`/`elif` branches with
+    the same test text are unified one by one (a refactoring of one branch must not keep the others from being recognised)"""
+
+    def branches(f):
+        out = {}
+        for n in ast.walk(f):
+            if isinstance(n, ast.If):
+                out.setdefault(" ".join(ast.unparse(n.test).split()), []).append(n)
+        return out
+
+    rb, fb = branches(ref_fn), branches(fn)
+    lr, lf = _locals_of(ref_fn), _locals_of(fn)
+    n = 0
+    for key, rl in rb.items():
+        fl = fb.get(key)
+        if not fl or len(fl) != len(rl):
+            continue
+        for r_if, f_if in zip(rl, fl):
+            rmod = ast.FunctionDef(name="_", args=ref_fn.args, body=r_if.body, decorator_list=[], lineno=0, col_offset=0)
+            fmod = ast.FunctionDef(name="_", args=fn.args, body=f_if.body, decorator_list=[], lineno=0, col_offset=0)
+            m = alpha_unify(rmod, fmod, lr, lf)
+            if m:
+                # only names that are local to this branch may be renamed (others are shared with the rest of the function)
+                inside = {x.id for s_ in f_if.body for x in ast.walk(s_) if isinstance(x, ast.Name)}
+                outside = {x.id for x in ast.walk(fn) if isinstance(x, ast.Name)} - set()
+                cnt_in = {}
+                for s_ in f_if.body:
+                    for x in ast.walk(s_):
+                        if isinstance(x, ast.Name):
+                            cnt_in[x.id] = cnt_in.get(x.id, 0) + 1
+                cnt_all = {}
+                for x in ast.walk(fn):
+                    if isinstance(x, ast.Name):
+                        cnt_all[x.id] = cnt_all.get(x.id, 0) + 1
+                m = {k: v for k, v in m.items() if cnt_in.get(k) == cnt_all.get(k) and v not in cnt_all}
+                if m:
+                    for s_ in f_if.body:
+                        apply_rename(s_, m)
+                    n += 1
+    return n
+
+
 def canonical_local_names(tree, rel: str) -> int:
     """The rules name some anchors by the spelling of local variables (`query`, `res`, `cols` ...).  A function of the
     analysed tree that equals its counterpart in the reference snapshot (/verif/reference, the tree the rule instances
     were confirmed on) up to a consistent renaming of locals is renamed back to the reference spelling, so that a pure
-    rename cannot change any verdict.  Functions that differ in any other way are left as they are."""
-    ref = REFERENCE_DIR / rel
-    if not ref.exists():
+    rename cannot change any verdict.  Functions that differ in any other way are left as they are (except that single
+    branches of their if-chains are still unified)."""
+    rtree = _reference_tree(rel)
+    if rtree is None:
         return 0
-    try:
-        rtree = ast.parse(ref.read_text())
-    except SyntaxError:
-        return 0
-    normalise(rtree)
     rf, ff = _functions_by_qualname(rtree), _functions_by_qualname(tree)
     n = 0
     # innermost first, so that an enclosing function is compared after its nested functions were renamed
-    for q in sorted(ff, key=lambda s: -s.count(".")):
+    for q in sorted(ff, key=lambda s_: -s_.count(".")):
         if q in rf:
             m = alpha_unify(rf[q], ff[q])
-            if m:
+            if m is None:
+                n += _unify_blocks(rf[q], ff[q])
+            elif m:
                 apply_rename(ff[q], m)
                 n += 1
     return n
+
+
+SMALL_EDIT_LINES = 8
+
+_IDIOM_TOKENS = {
+    # tokens that come and go with idiom changes and carry no behaviour of their own
+    "name:itertools", "name:functools", "name:operator", "name:copy", "lambda", "break", "assert", "cmp:is", "cmp:in",
+    "cmp:eq", "num:0", "num:1", "attr:chain", "attr:reduce", "name:Optional", "name:Any", "kw:strict=True", "op:Sub",
+    "aug:Add", "aug:BitOr", "op:Mult", "raise:",
+}  # fmt: skip
+
+
+def _callees_in_module(tree, fn, depth=3):
+    """functions of the same module reachable from fn by calls to a plain name or to a method on self / cls / the class"""
+    table = _functions_by_qualname(tree)
+    by_simple: dict[str, list] = {}
+    for q, f in table.items():
+        by_simple.setdefault(q.split(".")[-1], []).append(f)
+    seen = {id(fn)}
+    out = []
+    frontier = [fn]
+    for _ in range(depth):
+        nxt = []
+        for f in frontier:
+            for c in ast.walk(f):
+                if isinstance(c, ast.Call):
+                    nm = None
+                    if isinstance(c.func, ast.Name):
+                        nm = c.func.id
+                    elif isinstance(c.func, ast.Attribute) and isinstance(c.func.value, ast.Name):
+                        nm = c.func.attr
+                    for g in by_simple.get(nm, []) if nm else []:
+                        if id(g) not in seen:
+                            seen.add(id(g))
+                            out.append(g)
+                            nxt.append(g)
+        frontier = nxt
+    return out
+
+
+def lost_tokens(module, node):
+    """behaviour-carrying tokens (normal.signature) that the reference version of the function containing `node` -
+    together with the same-module functions it calls - has, and the analysed version no longer has anywhere.
+    None when there is no reference counterpart.  An empty result means: whatever changed, nothing was removed -
+    a rule that merely fails to *recognise* a construct has no evidence of a violation."""
+    from .normal import signature
+
+    rel = getattr(module, "src_rel", None)
+    if rel is None:
+        return None
+    rtree = _reference_tree(rel)
+    if rtree is None:
+        return None
+    fn = node
+    while fn is not None and not isinstance(fn, (ast.FunctionDef, ast.AsyncFunctionDef)):
+        fn = getattr(fn, "_parent", None)
+    top = fn
+    while top is not None:
+        p = getattr(top, "_parent", None)
+        while p is not None and not isinstance(p, (ast.FunctionDef, ast.AsyncFunctionDef)):
+            p = getattr(p, "_parent", None)
+        if p is None:
+            break
+        top = p
+    if top is None:
+        return None
+    q = getattr(top, "_qualname", None)
+    rf = _functions_by_qualname(rtree)
+    if q is None or q not in rf:
+        return None
+    cache = module.__dict__.setdefault("_lost_cache", {})
+    if q in cache:
+        return cache[q]
+    # a small edit of an otherwise unchanged function is a targeted change, not a restructuring: a rule that stops
+    # recognising its construct there has its evidence (reported as {"<small edit>"})
+    import difflib
+
+    la = ast.unparse(rf[q]).splitlines()
+    lb = ast.unparse(top).splitlines()
+    changed = sum(1 for d in difflib.unified_diff(la, lb, lineterm="", n=0) if d[:1] in "+-" and not d.startswith(("+++", "---")))
+    if 0 < changed <= SMALL_EDIT_LINES:
+        cache[q] = {f"<small edit: {changed} changed lines>"}
+        return cache[q]
+    ign = frozenset(x.split(".")[-1] for x in getattr(module, "new_helpers", frozenset()))
+    have = set(signature(top, ign))
+    for g in _callees_in_module(module.tree, top):
+        have |= signature(g, ign)
+    ref = set(signature(rf[q]))
+    for g in _callees_in_module(rtree, rf[q]):
+        ref |= signature(g)
+    lost = {t for t in ref - have if t not in _IDIOM_TOKENS and not t.startswith("name:_") and not t.startswith("attr:_check")}
+    cache[q] = lost
+    return lost
 
 
 class Module:
@@ -300,14 +310,23 @@ class Module:
         self.path = path
         self.source = source
         self.tree = ast.parse(source, filename=str(path))
-        self.n_normalised = normalise(self.tree) if os.environ.get("PDTSA_NORMALISE", "1") != "0" else 0
+        self.n_normalised = {}
         self.n_alpha = 0
+        self.src_rel = None
+        self.new_helpers = frozenset()
         if os.environ.get("PDTSA_NORMALISE", "1") != "0":
+            rel = None
             try:
                 idx = path.parts.index("src")
-                self.n_alpha = canonical_local_names(self.tree, str(Path(*path.parts[idx:])))
+                rel = str(Path(*path.parts[idx:]))
             except ValueError:
                 pass
+            helpers = new_private_helpers(self.tree, rel) if rel else frozenset()
+            self.src_rel = rel
+            self.new_helpers = helpers
+            self.n_normalised = _normalise_tree(self.tree, helpers)
+            if rel:
+                self.n_alpha = canonical_local_names(self.tree, rel)
         self.rel = None
         for parent in ast.walk(self.tree):
             for child in ast.iter_child_nodes(parent):
@@ -425,6 +444,19 @@ class Repo:
             if cand in self.modules:
                 return self.modules[cand]
         raise AnalysisError(f"anchor module {short} not found")
+
+    def same_as_reference(self) -> bool:
+        """is every analysed module textually identical to the snapshot the rule instances were confirmed on?"""
+        if not REFERENCE_DIR.exists():
+            return True
+        for m in self.modules.values():
+            rel = getattr(m, "src_rel", None)
+            if rel is None:
+                continue
+            ref = REFERENCE_DIR / rel
+            if not ref.exists() or ref.read_text() != m.source:
+                return False
+        return True
 
     def digest(self) -> str:
         h = hashlib.sha256()
